@@ -507,13 +507,7 @@ class Formatter:
             if validated["hour"] is None:
                 raise ValueError("Invalid Date")
 
-            t = (
-                validated["hour"],
-                validated["minute"],
-                validated["second"],
-                validated["microsecond"],
-            )
-            if t >= (13, 0, 0, 0):
+            if validated["hour"] >= 13:
                 raise ValueError("Invalid date")
 
             pm = parsed["meridiem"] == "pm"
